@@ -201,6 +201,31 @@ def render(p):
     return repr(p)
 
 
+
+def render_value(v):
+    """payload as a Colang literal expression"""
+    if isinstance(v, list):
+        return "[" + ", ".join(render_value(x) for x in v) + "]"
+    if isinstance(v, set):
+        return "{" + ", ".join(render_value(x) for x in sorted(v, key=repr)) + "}" if v else "set()"
+    if isinstance(v, dict):
+        return "{" + ", ".join('"%s": %s' % (k, render_value(x)) for k, x in v.items()) + "}"
+    if isinstance(v, str):
+        return '"' + v.replace("{", "{{").replace("}", "}}") + '"'
+    return repr(v)
+
+
+def _colang_literal_ok(v):
+    """values we can write as a literal in an assignment without tripping over the parser (no `$`, no quotes inside strings, no empty containers at top level)"""
+    if isinstance(v, str):
+        return "$" not in v and '"' not in v
+    if isinstance(v, (list, set)):
+        return all(_colang_literal_ok(x) for x in v) and (len(v) > 0 or isinstance(v, list))
+    if isinstance(v, dict):
+        return all(_colang_literal_ok(x) for x in v.values())
+    return True
+
+
 def depth(p):
     if isinstance(p, (list, set)):
         return 1 + max([depth(x) for x in p] or [0])
@@ -321,7 +346,7 @@ def setup_worker():
     orig_cmp = sm._compute_event_comparison_score
 
     def cmp_wrapper(state, event, ref_event, priority=None):
-        if getattr(event, "name", None) in ("E", "PairActionFinished", "PairActionUpdated") and not _C["active"]:
+        if getattr(event, "name", None) in ("E", "PairActionFinished", "PairActionUpdated", "FlowFinished") and not _C["active"]:
             _C["active"] = True
             try:
                 return orig_cmp(state, event, ref_event, priority)
@@ -355,6 +380,15 @@ def run_pair(case):
     # a third of the pairs use an action event (received through ActionEvent.from_umim_event, with an action_uid)
     evname = rng.choice(["E", "E", "E", "E", "PairActionFinished", "PairActionUpdated"])
     src = "flow main\n  $cv = \"Ann\"\n  match %s(p=%s)\n  send Done()\n  match Never()\n" % (evname, render(p))
+    # one pair in seven takes the INTERNAL route: the payload is a value the interpreter itself holds (a variable passed as
+    # a flow parameter, which the interpreter wraps in its own dict subclass) and arrives inside an internal FlowFinished event
+    internal = rng.random() < 0.15 and not extras and _colang_literal_ok(v)
+    if internal:
+        evname = "E"
+        src = (
+            "flow main\n  $cv = \"Ann\"\n  $pv = %s\n  start carrier $pv\n  match FlowFinished(flow_id=\"carrier\", x=%s)\n  send Done()\n  match Never()\n\n"
+            "flow carrier $x\n  match E()\n" % (render_value(v), render(p))
+        )
     L["random"].reset(seed=case["seed"])
     _C["evals"] = 0
     _C["viol"] = []
@@ -363,6 +397,8 @@ def run_pair(case):
     except v2h.LoaderReject as e:
         return {"verdict": "inconclusive", "reason": "loader-reject", "detail": str(e)[:200] + " :: " + render(p)}
     ev = {"type": evname, "p": v}
+    if internal:
+        ev = {"type": "E"}
     if evname != "E":
         ev["action_uid"] = "uid-%d" % rng.randint(1, 9)
     ev.update(extras)
@@ -394,6 +430,7 @@ def run_pair(case):
         "kind_" + type(p).__name__: 1,
         "with_extra_params": int(bool(extras)),
         "on_action_event": int(evname != "E"),
+        "payload_through_internal_event": int(bool(internal)),
         "max_pattern_depth": depth(p),
     }
     base["sample"]["marker"] = got
